@@ -519,6 +519,7 @@ pub fn replay(args: &[String]) {
     // two ticks past the last time the contract dispatches)
     let mut max_tick = arg_u64(args, "--max-tick", 12);
     for_each_line(path, |_, v| {
+        watchdog::tick();
         for e in v.as_array().unwrap() {
             for k in ["t", "time", "sim_time", "start"] {
                 if let Some(t) = e[k].as_u64() {
